@@ -211,6 +211,8 @@ class SeqRef:
         for ci, c in enumerate(self.prog["ctxs"]):
             if c["kind"] != "clocked":
                 continue
+            if c.get("step") and not inp.get("en", 1):
+                continue  # step condition false: nothing executes, every target (a pushed one included) holds
             pend, mpend, push = {}, {}, [None]
             T = {}
             for nm, e in c["always_vals"]:
